@@ -5,7 +5,7 @@ from . import rtgen as R
 ID = "C15"
 THEOREMS = ['Portus.C15.pick_spec', 'Portus.C15.pick_default', 'Portus.C15.programs_are_union']
 SPEC_IS_ORACLE = True
-KEEP = {"NF", "TX IN", "RX", "RES"}
+KEEP = {"NF", "TX IN", "RX", "RES", "RP", "CL", "DR"}   # which flow (created by which algorithm) gets the later reports, the close, the drop
 RELATION = "which algorithm's new_flow ran for each create (by name) and which programs were installed"
 RULE = 'registration lists: default plus 0..4 additional algorithms with duplicate names, registrations without an instance, names that are prefixes/extensions of each other, empty name, 63-byte name, non-ASCII name; requested names: each registered name, strict prefixes and extensions, empty, absent, embedded NUL, unregistered; programs spread over the algorithms with name collisions. non-trivial = at least 2 additional algorithms and 2 creates; distinct by case line'
 EXPLANATION = "theorems: pick = the most recently registered algorithm with an instance whose name equals the requested name exactly, else the default (pick_spec: matches, and no later registration matches; pick_default); the program union contains every program name of every algorithm with an instance. Oracle = the closed form (NF/install projection must equal the model's)"
